@@ -10,17 +10,53 @@ class C09(RecorderProp):
     RULE = ('histories of 2-6 runs (operations returning / raising / interrupted / discarded / sampled out / hit by faults, '
             'replays of present and missing ids, replays failing with a missing key or whose function raises) followed by a '
             'probe run; the probe is also executed on a FRESH recorder over the same cassette, PRNG and clock position; '
-            'idle flags read after every run; non-trivial = history of >= 2 runs; distinct = distinct canonical case')
+            'idle flags read after every run; + operations that start a replay while they are recorded, the replayed code perhaps discarding the recording in flight (not modelled: idle afterwards, a probe records what a fresh recorder records); non-trivial = history of >= 2 runs; distinct = distinct canonical case')
     OPTS = dict(ALL_OPTS, runs=(2, 6), play_ratio=0.45, same_script=0.5, cassettes=['memory', 'memory', 'file'], foreign=True)
     N = {'quick': 2000, 'thorough': 20000}
 
+    PLAYINSIDE = {'quick': 40, 'thorough': 400}
+
+    def generate(self, rng, tier):
+        """+ operations that start a replay while they are recorded, the replayed code perhaps discarding the recording in flight
+        (not modelled): afterwards the recorder is idle and a probe operation records what it records on a fresh recorder"""
+        cases = super(C09, self).generate(rng, tier)
+        for _ in range(self.PLAYINSIDE[tier]):
+            steps = [[rng.choice(['in', 'out', 'out']), rng.randint(0, 3)] for _ in range(rng.randint(0, 4))]
+            for _ in range(rng.choice([1, 1, 2])):
+                steps.insert(rng.randint(0, len(steps)), ['play', rng.choice(['known', 'known-discard', 'known-discard', 'unknown'])])
+            cases.append({'kind': 'playinside', 'model': False, 'steps': steps, 'end': rng.choice(['ret', 'ret', 'raise'])})
+        return cases
+
+    def sample_repr(self, case):
+        return case if case.get('kind') == 'playinside' else super(C09, self).sample_repr(case)
+
+    def features(self, case, impl):
+        if case.get('kind') == 'playinside':
+            return ['replay-inside-a-recorded-operation' + (':discarding' if any(st[1] == 'known-discard' for st in case['steps'] if st[0] == 'play') else '')]
+        return super(C09, self).features(case, impl)
+
+    def shrink(self, case):
+        return [] if case.get('kind') == 'playinside' else super(C09, self).shrink(case)
+
     def run_impl(self, case):
+        if case.get('kind') == 'playinside':
+            from harness.props.c05 import C05
+            return C05.run_playinside_case(self, case)
         t = rs.run_case(case)
         fresh = rs.run_case(dict(copy.deepcopy(case), fresh_before_last=True))
         t[-1]['_fresh_probe'] = rs.impl_public([fresh[-1]])[0]
         return t
 
     def oracle(self, case, impl):
+        if case.get('kind') == 'playinside':
+            fails = []
+            if impl['idle'] != [False, False]:
+                fails.append('after an operation that started a replay while it was recorded (steps %r) the recorder is not idle: '
+                             'recording / replaying = %r' % (case['steps'], impl['idle']))
+            if impl['probe_keys'] != impl['ref_keys']:
+                fails.append('after an operation that started a replay while it was recorded (steps %r) a probe operation recorded %r, '
+                             'on a fresh recorder it records %r' % (case['steps'], impl['probe_keys'], impl['ref_keys']))
+            return fails
         fails = []
         for i, r in enumerate(impl):
             if r['idle'] != IDLE:
@@ -41,6 +77,8 @@ class C09(RecorderProp):
         return fails
 
     def nontrivial(self, case, impl):
+        if case.get('kind') == 'playinside':
+            return True
         return len(case['runs']) >= 2
 
 
